@@ -132,7 +132,8 @@ CHECKS = {
             'the first answer of a fresh twin object with the same definition; invariants: caller arrays unchanged, thread count irrelevant',
             'generated-input search over sequences of up to 8-12 public calls (matrices incl. placed and state-dependent ones, force vectors, '
             'lb/freq/static, field recovery with drawn thread counts, plots) on Panel (4 models), PanelAssembly, StiffPanelBay and '
-            'ConeCyl (12 models); first-call failures and history dependence are both violations',
+            'ConeCyl (12 models); first-call failures and history dependence are both violations; re-definition histories (public attributes '
+            'edited between evaluations on one Panel / ConeCyl, compared with a fresh object given the current definition)',
             'documented refusals and solver preconditions are accepted outcomes when fresh and shared objects agree; data races need a '
             'controlled schedule which this technique does not own (thread counts varied only)', '3 C20'),
 }
